@@ -717,17 +717,18 @@ func (m *Manager) publishBlockInternal(ctx context.Context) error {
 		return fmt.Errorf("failed to save block: %w", err)
 	}
 
+	newState.DAHeight = m.daHeight.Load()
+	// After this call m.lastState is the NEW state returned from ApplyBlock
+	// updateState also commits the DB tx. The state is persisted before the height:
+	// on restart the height is raised to the state's height, never the other way round.
+	if err = m.updateState(ctx, newState); err != nil {
+		return fmt.Errorf("failed to update state: %w", err)
+	}
+
 	// Update the store height before submitting to the DA layer but after committing to the DB
 	headerHeight := header.Height()
 	if err = m.store.SetHeight(ctx, headerHeight); err != nil {
 		return err
-	}
-
-	newState.DAHeight = m.daHeight.Load()
-	// After this call m.lastState is the NEW state returned from ApplyBlock
-	// updateState also commits the DB tx
-	if err = m.updateState(ctx, newState); err != nil {
-		return fmt.Errorf("failed to update state: %w", err)
 	}
 
 	m.recordMetrics(data)
